@@ -651,8 +651,8 @@ def _realise(width, acc, c, nowrap=False, carry=False, base=None):
     # several operand sets can have the same bits (cancellations happen bit-wise); the view used for
     # flattening is the smallest of them, so that it does not depend on which one was built first
     old = _lin_view.get(bits)
-    if old is None or (len(key[1]), key[2]) < (len(old[1]), old[2]):
-        _lin_view[bits] = key
+    if bits not in acc and (old is None or (len(key[1]), key[2]) < (len(old[1]), old[2])):
+        _lin_view[bits] = key       # (never a view that mentions the vector itself: flattening would not terminate)
     if not start and not dropped and not carry:
         _lin_strip.setdefault(_strip(bits), (key, node, crem))
     for pm, nodem, cremm in marks:
@@ -717,7 +717,8 @@ def _realise_opaque(width, acc, c):
             # 2^j * x is the left shift of x (x + x, x * 8, ...): one canonical bit-level form
             bits = shl(t, k.bit_length() - 1)
             _sum_index[key] = bits
-            _lin_view[bits] = key
+            if bits not in acc:
+                _lin_view[bits] = key
             return bits
     # low bits that are constant in every operand (all coefficients odd): computed exactly, the
     # remaining bits are the canonical form of a narrower sum (an identity of modular arithmetic)
@@ -737,7 +738,8 @@ def _realise_opaque(width, acc, c):
         _sum_nodes.append(key)
         bits = tuple(abit(("sum", sid, i)) for i in range(width))
     _sum_index[key] = bits
-    _lin_view[bits] = key
+    if bits not in acc:
+        _lin_view[bits] = key
     return bits
 
 
@@ -843,7 +845,11 @@ def lin(width, terms, c=0):
     # Flatten tentatively (cancellations may shrink the form again) and keep the deepest flattening whose
     # result has at most FLATTEN operands: S + y stays {S, y} when S is full, yet S - y_last still peels
     chosen = (dict(pend), c)
+    rounds = 0
     while True:
+        rounds += 1
+        if rounds > 400:
+            break                   # defensive: flattening always terminates on well-founded views
         best = None
         for t in pend:
             v = _lin_view.get(t)
